@@ -53,7 +53,8 @@ pub trait Family: Sync {
 
     fn build(&self, e: u64, shape: &ShapeNode, ad: &Addrs) -> Program {
         let mut nodes: Vec<Node> = vec![];
-        let mut next_id = 100u64;
+        // sub-message ids count up from 0 (zero is an id like any other)
+        let mut next_id = 0u64;
         let root = self.build_node(shape, &mut nodes, &mut next_id, ad);
         Program { entry: self.entry(e, ad), root, nodes }
     }
@@ -75,7 +76,7 @@ pub trait Family: Sync {
                 }
             };
             let reply = s.reply.as_ref().map(|r| self.build_node(r, nodes, next_id, ad));
-            let payload = if id % 2 == 0 { vec![] } else { format!("p{}", id).into_bytes() };
+            let payload = if id % 2 == 1 { vec![] } else { format!("p{}", id).into_bytes() };
             subs.push(Sub { id, payload, reply_on: s.mode, msg, reply });
         }
         nodes[idx].subs = subs;
@@ -274,7 +275,7 @@ impl Family for DataEv {
         v /= 2;
         if v % 2 == 1 {
             // attribute keys in an order no sorting would produce ('Z' < '_contract_address' < 'a' < 'n')
-            nd.events = vec![("ev".into(), vec![("n".into(), format!("{}", idx)), ("Z".into(), "z".into()), ("a".into(), "".into())]), (format!("e{}", idx), vec![])];
+            nd.events = vec![("ev".into(), vec![("n".into(), format!("{}", idx)), ("Z".into(), "z".into()), ("a".into(), "".into())]), (format!("e{}", idx), vec![]), ("wasm-x".into(), vec![("k".into(), "v".into())])];
         }
         nd.writes.push(WriteOp::Set(format!("m{}", idx).into_bytes(), b"1".to_vec()));
     }
